@@ -34,6 +34,7 @@ class Crate:
         for b in self.bodies.values():
             if "body" in b:
                 lower_while_next(b["body"])
+                merge_guarded_arms(b["body"])
 
     def _annotate(self):
         """resolve interned type indices to strings in place (ty, adj, owner, gen)"""
@@ -491,3 +492,74 @@ def lower_while_next(root):
             break       # statement indices moved: one loop per block per pass
     if changed:
         lower_while_next(root)
+
+
+def _irrefutable_under_variant(p):
+    """(variant path, [(slot, binder-or-None)]) for a pattern `V(a, _, ..)` / `V { f: a, g: _, .. }` whose sub-patterns are all binders or wildcards"""
+    while isinstance(p, dict) and p.get("k") in ("PRef", "PBox", "PDeref"):
+        p = p["p"]
+    if not isinstance(p, dict):
+        return None
+    def leafkind(q):
+        while isinstance(q, dict) and q.get("k") in ("PRef", "PBox", "PDeref"):
+            q = q["p"]
+        if q.get("k") == "Wild":
+            return ("wild", None)
+        if q.get("k") == "Bind" and "sub" not in q:
+            return ("bind", q)
+        return None
+    if p.get("k") == "PTupleStruct":
+        subs = [(i, leafkind(q)) for i, q in enumerate(p.get("ps", []))]
+    elif p.get("k") == "PStruct":
+        subs = [(f["name"], leafkind(f["p"])) for f in p.get("fields", [])]
+    else:
+        return None
+    if any(k is None for _s, k in subs):
+        return None
+    return p, p.get("path"), subs
+
+
+def merge_guarded_arms(root):
+    """`V(x) if g => a, V(_) => b` (consecutive arms on the same variant whose sub-patterns only bind) is rewritten in place into the single
+    arm `V(x) => if g { a } else { b }`, the shape rules that look at "the arm for V" expect. Binders of the second arm that the first
+    does not have are added to the merged pattern; binders both have are identified (the second's uses are renumbered)."""
+    for m in [n for n in walk(root) if n.get("k") == "Match" and n.get("src") == "Normal"]:
+        arms = m["arms"]
+        i = 0
+        while i + 1 < len(arms):
+            a, b = arms[i], arms[i + 1]
+            ia, ib = _irrefutable_under_variant(a["pat"]), _irrefutable_under_variant(b["pat"])
+            if "guard" not in a or "guard" in b or ia is None or ib is None or ia[1] != ib[1] or ia[0].get("k") != ib[0].get("k"):
+                i += 1
+                continue
+            pa, _path, sa = ia
+            pb, _path, sb = ib
+            da, db = dict(sa), dict(sb)
+            if pa.get("k") == "PTupleStruct" and len(sa) != len(sb):
+                i += 1
+                continue
+            ren = {}
+            for slot, kb in db.items():
+                ka = da.get(slot)
+                if kb[0] == "bind":
+                    if ka is not None and ka[0] == "bind":
+                        ren[kb[1]["id"]] = ka[1]["id"]
+                    elif pa.get("k") == "PTupleStruct":
+                        pa["ps"][slot] = kb[1]                     # the first arm ignored this slot: take the second's binder
+                    else:
+                        hit = [f for f in pa["fields"] if f["name"] == slot]
+                        if hit:
+                            hit[0]["p"] = kb[1]
+                        else:
+                            pa["fields"].append({"name": slot, "p": kb[1]})
+            if ren:
+                for x in walk(b["body"]):
+                    if x.get("k") == "Path" and x.get("r") == "local" and x.get("id") in ren:
+                        x["id"] = ren[x["id"]]
+            body = {"k": "If", "cond": a["guard"], "then": a["body"], "else": b["body"], "ty": a["body"].get("ty", b["body"].get("ty", "")),
+                    "sp": a["body"].get("sp", "")}
+            merged = dict(a)
+            del merged["guard"]
+            merged["body"] = body
+            arms[i:i + 2] = [merged]
+            # stay at i: a further arm on the same variant may follow
